@@ -318,7 +318,7 @@ fn gen_script(rng: &mut StdRng, always_restart: bool, fbmode: bool) -> J {
             let val: Vec<u8> = if sz == "X" { vec![rng.gen_range(0..2)] } else { (0..n).map(|_| rng.gen_range(0..=255)).collect() };
             steps.push(json!({"a": "DebugIoWrite", "addr": {"area": "I", "size": sz, "byte": b, "bit": if sz == "X" { bit } else { 0 }}, "val": val}));
         }
-        if fbmode && faulty && rng.gen_bool(0.2) {
+        if fbmode && faulty && rng.gen_bool(0.35) {
             // a fault at a program point of a task-driven FB instance
             let f = &fbs[rng.gen_range(0..fbs.len())];
             let nst = f["copies"].as_array().unwrap().len();
